@@ -3,7 +3,7 @@
    stored frames are the padded cuts of one matrix at grid positions. *)
 From Coq Require Import String ZArith List Bool Permutation Sorted.
 From HD Require Import Base.Val C12_Model C12_Proofs C04_Model C04_Proofs C04_Proofs_Store C04_Proofs_Geom
-                       C04_Proofs_Arr C04_Proofs_E2E C04_Proofs_Vol C04_Proofs_Order C04_Proofs_Comb.
+                       C04_Proofs_Arr C04_Proofs_E2E C04_Proofs_Vol C04_Proofs_Order C04_Proofs_Comb C04_Proofs_Free.
 Import ListNotations.
 Open Scope Z_scope.
 
@@ -561,3 +561,121 @@ Example C04_example_combined :
   end.
 Proof. vm_compute. repeat split; try reflexivity; intros row [<-|[<-|[<-|[<-|[]]]]]; reflexivity. Qed.
 Print Assumptions C04_example_combined.
+
+(* ---- frames at ARBITRARY explicit positions (off the tile grid, overlapping, with gaps) ------- *)
+(* the WHERE clause of the region query selects exactly the frames that overlap the region
+   (a frame of t rows at 1-based position p holds rows [p, p + t); the region is [s, e)) ... *)
+Theorem C04_selected_iff_overlaps : forall s e t p,
+  (selected s e t p = true <-> (p < e /\ s < p + t)) /\
+  (* ... and its lower bound start - size + 1 is tight: the frame starting there still holds the
+     first requested row, the one before does not *)
+  (1 <= t -> s < e -> selected s e t (s - t + 1) = true /\ selected s e t (s - t) = false).
+Proof. exact selected_overlaps_and_tight. Qed.
+Print Assumptions C04_selected_iff_overlaps.
+
+(* free_tiles_region_exact: frames cut from ONE matrix g at ANY positions - on the grid or not,
+   overlapping, with gaps, repeated, stored in any order - reassemble, for every region, to
+   exactly that matrix where a stored frame holds the cell and to 0 elsewhere (whole array) *)
+Theorem C04_free_tiles_region_exact : forall g ts s e cs ce th tw,
+  (forall t, In t ts -> shows_free g th tw t) ->
+  read_region ts s e cs ce th tw = masked_slice g th tw ts s e cs ce.
+Proof. exact free_region_exact. Qed.
+Print Assumptions C04_free_tiles_region_exact.
+
+Theorem C04_free_tiles_end_to_end : forall g ts R C th tw ai rs re cs ce, 1 <= R -> 1 <= C ->
+  (forall t, In t ts -> shows_free g th tw t) ->
+  read_std false ts R C th tw ai rs re cs ce =
+  match spec_region ai R C rs re cs ce with
+  | Some (s, e, c0, c1) => Ok (masked_slice g th tw ts s e c0 c1)
+  | None => Err "ValueError"
+  end /\
+  (* where the frames together hold every cell of a region, the read IS the slice of g *)
+  (forall s e c0 c1,
+     (forall i j, 0 <= i < e - s -> 0 <= j < c1 - c0 -> existsb (holds th tw (s + i) (c0 + j)) ts = true) ->
+     masked_slice g th tw ts s e c0 c1 =
+     map (fun i => map (fun j => g (s - 1 + i) (c0 - 1 + j)) (zrange (c1 - c0))) (zrange (e - s))).
+Proof. exact free_read_end_to_end_covered. Qed.
+Print Assumptions C04_free_tiles_end_to_end.
+
+(* Segmentation built FRAME BY FRAME with plane_positions at caller-chosen offsets: the frames of
+   segment k, cut from one plane g, read back for every region as that plane (times
+   MaximumFractionalValue for FRACTIONAL) where a stored frame holds the cell, else 0 ... *)
+Theorem C04_free_seg_plane_exact : forall ty mf omit frames k g th tw s e cs ce,
+  (forall f T, In f frames -> In (k, T) (f_planes f) ->
+     forall a b, 0 <= a < th -> 0 <= b < tw -> cell T a b = g (f_rp f - 1 + a) (f_cp f - 1 + b)) ->
+  read_region (tiles_of_seg k (seg_store_frames ty mf omit frames)) s e cs ce th tw =
+  masked_slice (fun r c => g r c * factor ty mf) th tw
+               (tiles_of_seg k (seg_store_frames ty mf omit frames)) s e cs ce.
+Proof. exact free_seg_plane_exact. Qed.
+Print Assumptions C04_free_seg_plane_exact.
+
+(* ... where a frame is left out only under omission and only if it is all zero *)
+Theorem C04_free_seg_omitted_empty : forall ty mf omit frames f k T,
+  In f frames -> In (k, T) (f_planes f) ->
+  pos_mem (f_rp f) (f_cp f) (tiles_of_seg k (seg_store_frames ty mf omit frames)) = false ->
+  omit = true /\ any_nonzero T = false.
+Proof. exact free_seg_omitted_empty. Qed.
+Print Assumptions C04_free_seg_omitted_empty.
+
+(* free_declared_covers (FULL since fix D121; before it only held when one frame sat at the
+   bottom-right corner of the bounding box and was refuted otherwise): the TotalPixelMatrixRows /
+   Columns a frame-wise segmentation declares hold every frame passed, and no smaller matrix does *)
+Theorem C04_free_declared_covers : forall th tw ps,
+  (forall p, In p ps -> fst p + th - 1 <= fst (declared_free th tw ps) /\
+                        snd p + tw - 1 <= snd (declared_free th tw ps)) /\
+  (ps <> [] -> (exists p, In p ps /\ fst p + th - 1 = fst (declared_free th tw ps)) /\
+               (exists p, In p ps /\ snd p + tw - 1 = snd (declared_free th tw ps))).
+Proof. exact declared_free_covers. Qed.
+Print Assumptions C04_free_declared_covers.
+
+(* ---- floating point masks stored as FRACTIONAL levels ---------------------------------------- *)
+(* a float mask passed as a whole matrix and tiled by the library reads back (raw levels, one
+   plane per requested segment) as the numpy slices of its QUANTISED planes, for every
+   MaximumFractionalValue, tile size, organisation and omission flag *)
+Theorem C04_seg_frac_end_to_end : forall mf full omit planes R C th tw st sel ai rs re cs ce,
+  1 <= R -> 1 <= C -> 1 <= th -> 1 <= tw ->
+  NoDup (map fst planes) -> (forall k Mk, In (k, Mk) planes -> wf_matrix Mk R C) ->
+  stored_frac mf full omit planes (map fst planes) R C th tw = Ok st ->
+  (forall k, In k sel -> In k (map fst planes)) ->
+  seg_read st sel R C th tw ai rs re cs ce =
+  match spec_region ai R C rs re cs ce with
+  | Some (s, e, c0, c1) =>
+      Ok (map (fun k => submatrix (plane_of k planes) (s - 1) (e - 1) (c0 - 1) (c1 - 1)) sel)
+  | None => match sel with [] => Ok [] | _ => Err "ValueError" end
+  end.
+Proof. exact seg_frac_end_to_end. Qed.
+(* (probabilities outside [0, 1] and max_fractional_value > 255 are refused: the guard of stored_frac) *)
+Print Assumptions C04_seg_frac_end_to_end.
+
+(* faint tiles are kept: a tile of plane k is absent from the TILED_SPARSE object only under
+   omission and only if every LEVEL in it is zero *)
+Theorem C04_seg_frac_omitted_iff_level_zero : forall mf omit planes R C th tw st k Mk pc pr,
+  1 <= R -> 1 <= C -> 1 <= th -> 1 <= tw ->
+  NoDup (map fst planes) -> In (k, Mk) planes ->
+  stored_frac mf false omit planes (map fst planes) R C th tw = Ok st -> In (pc, pr) (grid R C th tw) ->
+  pos_mem pr pc (tiles_of_seg k st) = false ->
+  omit = true /\ any_nonzero (cut Mk R C th tw (pc, pr)) = false.
+Proof. exact seg_frac_omitted_iff_level_zero. Qed.
+Print Assumptions C04_seg_frac_omitted_iff_level_zero.
+
+(* non-vacuity: three 2 x 3 frames cut from a 5 x 6 matrix at off-grid, overlapping positions
+   (1,1), (2,3), (4,4), stored out of order; regions starting strictly inside an off-grid frame
+   past the next grid line; a probability mask with a faint tile (levels 1 and 3 of 255) next
+   to an empty one, omission on *)
+Example C04_example_free :
+  let g := fun r c => 1 + r * 6 + c in
+  let fr := fun rp cp => mkT rp cp (map (fun a => map (fun b => g (rp - 1 + a) (cp - 1 + b)) (zrange 3)) (zrange 2)) in
+  let ts := [fr 4 4; fr 1 1; fr 2 3] in
+  (forall t, In t ts -> shows_free g 2 3 t) /\
+  read_std false ts 5 6 2 3 false (Some 3) None (Some 5) None = Ok [[17;0];[23;24];[29;30]] /\
+  read_std false ts 5 6 2 3 true (Some 1) (Some 3) (Some 2) (Some 5) = Ok [[9;10;11];[15;16;17]] /\
+  selected 3 6 2 2 = true /\ selected 5 7 3 3 = true /\
+  declared_free 2 3 [(4, 4); (1, 1); (2, 3)] = (5, 6) /\ declared_free 2 2 [(1, 5); (5, 1)] = (6, 6) /\
+  match stored_frac 255 false true [(1, [[0;0;0;0];[0;0;1;3]]); (2, [[255;0;0;0];[0;0;0;0]])] [1; 2] 2 4 2 2 with
+  | Ok st => length st = 2%nat /\
+             seg_read st [1; 2] 2 4 2 2 false None None (Some 3) None = Ok [[[0;0];[1;3]]; [[0;0];[0;0]]]
+  | Err _ => False
+  end /\
+  stored_frac 255 false true [(1, [[0;256]])] [1] 1 2 1 1 = Err "ValueError".
+Proof. exact example_free. Qed.
+Print Assumptions C04_example_free.
